@@ -126,6 +126,7 @@ template <unsigned N> static void scan_scenario(const std::uint64_t (&pre)[N], i
 }
 static const std::uint64_t S_flat[] = {0x10, 0x20, 0x30, 0x40};                                   // one I4
 static const std::uint64_t S_two[] = {0x0010, 0x0020, 0x0110, 0x0120, 0x0210};                     // root I4 over {I4, I4, leaf}
+static const std::uint64_t S_three[] = {0x10, 0x20, 0x30};     // one I4 whose lock word, after ONE more write, equals the version the root pointer lock had at seek time
 #ifndef KMAX
 #define KMAX 400
 #endif
@@ -136,4 +137,10 @@ SSCEN(sc_rev_rem_mid, S_flat, 1, 0, 0, REM, 0x30)
 SSCEN(sc_from_fwd_rem, S_two, 2, 0x0015, 0, REM, 0x0110)   // scan_from inside a two-level tree while an inner node collapses
 SSCEN(sc_from_rev_ins, S_two, 3, 0x0115, 0, INS, 0x0015)
 SSCEN(sc_range_rem_leaf, S_two, 4, 0x0011, 0x0211, REM, 0x0210)   // the last leaf under the root goes away
+// scan_from whose bound is not stored and whose byte is unmapped in the node the seek stops in, while a key BEHIND the scanner's position
+// in that node is inserted / removed (children shift under a stale child index).  The 3-entry prelude makes the node's version after that one
+// write coincide with the version its parent had at seek time: a stack entry that carries the wrong lock's version passes its check then.
+SSCEN(sc_from_flat_ins_low, S_three, 2, 0x18, 0, INS, 0x05)
+SSCEN(sc_from_flat_rem_low, S_three, 2, 0x18, 0, REM, 0x10)
+SSCEN(sc_from_rev_flat_ins_high, S_three, 3, 0x28, 0, INS, 0x35)
 SSCEN(sc_fwd_two_rem_inner, S_two, 0, 0, 0, REM, 0x0020)   // the first inner node collapses onto its remaining leaf while it is on the scanner's stack
